@@ -884,3 +884,297 @@ def name_diff(got, want, syms, resolve, is_attr):
         uri = resolve(p)
     out.append(uri != wu)
     return out
+
+
+# ---------------------------------------------------------------- C16: XML tree builder resolves namespaces by lexical scope
+def unit_c16(args):
+    """shape: list of tags (kind, (prefix, local), [(prefix, local, value), ...]); strings starting with '$' are symbolic
+    one-letter atoms (prefixes / URIs), everything else is literal.  The builder's create_element calls are compared with
+    a lexical-scope resolver."""
+    from mirsym.interp import Machine, PathEnd, Panic, Ptr, Struct, Enum
+    from mirsym.models import Atom, VecM, Tendril, some, none
+    t0 = time.time()
+    res = {"unit": "C16 %s" % args["name"], "paths": 0, "queries": 0, "obligations": 0, "violations": [], "panics": [], "errors": [], "livelock": 0}
+    try:
+        cons, syms = [], {}
+
+        def val(x):
+            """atom text: list of chars"""
+            if x is None:
+                return None
+            if x.startswith("$"):
+                if "concrete" in args:
+                    return [args["concrete"][x]]
+                if x not in syms:
+                    syms[x] = _sym_letter("c16_" + x[1:], cons)
+                return [syms[x]]
+            return [ord(c) for c in x]
+
+        for (a_, b_) in args.get("distinct", []):
+            val(a_), val(b_)
+            cons.append(syms[a_] != syms[b_])
+        XMLNS = "http://www.w3.org/2000/xmlns/"
+        work = [[]]
+        while work:
+            d = work.pop()
+            m = Machine(_PROG, d)
+            for c in cons:
+                m.assume(c)
+            try:
+                mk = lambda path, f=(): m.prog.make_adt(m, path, list(f), None)
+
+                def qn(p, l):
+                    return Struct("QualName", [some(Atom(val(p))) if p is not None else none(), Atom([]), Atom(val(l))])
+                tb = m.call("XmlTreeBuilder::new", [Struct("Sink", []), Struct("XmlTreeBuilderOpts", [])])
+                tbp = Ptr([tb], 0)
+                for (kind, name, attrs) in args["shape"]:
+                    av = VecM([Struct("Attribute", [qn(p, l), Tendril(val(v) if v else [])]) for (p, l, v) in attrs])
+                    tag = Struct("Tag", [mk("tokenizer::interface::TagKind::" + kind), qn(*name), av])
+                    m.call("<XmlTreeBuilder as TokenSink>::process_token", [tbp, mk("tokenizer::interface::Token::Tag", [tag])])
+                m.call("<XmlTreeBuilder as TokenSink>::process_token", [tbp, mk("tokenizer::interface::Token::EndOfFile")])
+                calls = [c for c in m.notes.get("tree", {}).get("calls", []) if c[0] == "create_element"]
+                outcome = "ok"
+            except Panic as e:
+                outcome = "panic: " + e.msg
+            except PathEnd:
+                work.extend(m.pending)
+                continue
+            work.extend(m.pending)
+            res["paths"] += 1
+            res["queries"] += m.nqueries
+            if "concrete" in args:
+                res["dump"] = c16_dump(calls) if outcome == "ok" else outcome
+                continue
+            if outcome != "ok":
+                rr, mo = model_of(m.pc)
+                res["panics"].append({"what": outcome, "chars": None, "cfg": None, "lens": None, "state": args["name"],
+                                      "syms": {k: mo.eval(v, model_completion=True).as_long() for k, v in syms.items()} if mo else None})
+                continue
+            # ---- oracle: lexical scoping, under this path's condition (equalities between symbolic atoms fork) -----------
+            rwork = [[]]
+            while rwork:
+                rd = rwork.pop()
+                m2 = Machine(None, rd)
+                for c in cons + m.pc:
+                    m2.assume(c)
+                try:
+                    exp = c16_oracle(m2, args["shape"], val)
+                except PathEnd:
+                    rwork.extend(m2.pending)
+                    continue
+                except OutOfScope:
+                    rwork.extend(m2.pending)
+                    res["out_of_scope"] = res.get("out_of_scope", 0) + 1
+                    continue
+                rwork.extend(m2.pending)
+                res["queries"] += m2.nqueries
+                res["obligations"] += 1
+                bad = c16_compare(calls, exp)
+                if bad is True:
+                    continue
+                rr, mo = model_of(m2.pc, [bad] if not isinstance(bad, str) else [])
+                res["queries"] += 1
+                if isinstance(bad, str) or rr == z3.sat:
+                    mo = mo or model_of(m2.pc)[1]
+                    res["violations"].append({"what": "created elements differ from lexical-scope resolution: %s" % (bad if isinstance(bad, str) else "namespace / attribute differs"),
+                                              "label": "xmlns", "state": args["name"], "shape": args["name"],
+                                              "syms": {k: mo.eval(v, model_completion=True).as_long() for k, v in syms.items()} if mo else {},
+                                              "got": [(repr(c[2]), [repr(x) for x in c[3]]) for c in calls][:6]})
+                elif rr != z3.unsat:
+                    res["errors"].append("solver unknown")
+    except Unsupported as e:
+        res["errors"].append("unsupported: " + str(e)[:300])
+    except Exception:
+        res["errors"].append("exception: " + traceback.format_exc()[-900:])
+    res["wall"] = time.time() - t0
+    res["models_used"] = sorted(MD.USED)
+    return res
+
+
+class OutOfScope(Exception):
+    """the path's atom equalities make the shape one the tokenizer cannot emit (two attributes with one qualified name)"""
+
+
+XML_URI = [ord(c) for c in "http://www.w3.org/XML/1998/namespace"]
+XMLNS_URI = [ord(c) for c in "http://www.w3.org/2000/xmlns/"]
+
+
+def c16_oracle(m, shape, val):
+    """-> list of (prefix chars|None, ns chars, local chars, [(prefix|None, ns, local, value)]): the elements the builder
+    must create, in order.  Namespaces in XML by lexical scope, written from the recommendation and XML5's tree construction,
+    not from the implementation:
+      * a start / empty tag's own declarations are visible to that tag's names and (start tag only) to its descendants, never
+        to siblings, ancestors or following content; innermost declaration wins;
+      * the default namespace applies to unprefixed element names only; unprefixed attributes have no namespace;
+      * `xml` is bound to the XML namespace and `xmlns` to the XMLNS namespace, neither can be re-bound, and the XMLNS URI
+        cannot be declared;
+      * an empty declaration un-binds (default or prefix); an unbound / undeclared prefix leaves the name in no namespace;
+      * declarations are namespace information, not attributes: they do not appear in the attribute list;
+      * a prefixed attribute is dropped iff an earlier prefixed attribute of the same tag has the same expanded name;
+      * tree construction: an end tag closes up to and including the nearest open element with the same expanded name and
+        is ignored when there is none; `</>` closes the current element; after the root element closes nothing is created.
+    """
+    def eq(a, b):
+        if a is None or b is None:
+            return a is None and b is None
+        c = MD.seq_eq(a, b)
+        return c if isinstance(c, bool) else m.branch_bool(c, "oracle atom eq")
+    XMLNS = [ord(c) for c in "xmlns"]
+    XML = [ord(c) for c in "xml"]
+    base = [(XML, XML_URI), (XMLNS, XMLNS_URI)]
+    open_ = []           # [(ns, local, own declarations)]
+    out = []
+
+    def lookup(p, extra):
+        for sc in [extra] + [o[2] for o in open_[::-1]] + [base]:
+            for (dp, du) in sc[::-1]:
+                if eq(dp, p):
+                    return du
+        return []
+    started = ended = False
+    for (kind, name, attrs) in shape:
+        if ended:
+            continue
+        if kind in ("StartTag", "EmptyTag"):
+            own = []
+            for (p, l, v) in attrs:
+                pv, lv, vv = val(p), val(l), (val(v) if v else [])
+                is_pref = pv is not None and eq(pv, XMLNS)
+                is_def = pv is None and eq(lv, XMLNS)
+                if not (is_pref or is_def):
+                    continue
+                key = lv if is_pref else None
+                if any(eq(d[0], key) for d in own):
+                    raise OutOfScope()
+                if eq(vv, XMLNS_URI):
+                    continue
+                if is_pref and eq(lv, XMLNS):
+                    continue
+                if is_pref and eq(lv, XML):
+                    continue                   # (binding xml to the XML namespace changes nothing; anything else is refused)
+                own.append((key, vv))
+            res_attrs, seen, names = [], [], []
+            for (p, l, v) in attrs:
+                pv, lv, vv = val(p), val(l), (val(v) if v else [])
+                for (qp, ql) in names:
+                    if eq(qp, pv) and eq(ql, lv):
+                        raise OutOfScope()
+                names.append((pv, lv))
+                if (pv is not None and eq(pv, XMLNS)) or (pv is None and eq(lv, XMLNS)):
+                    continue
+                if pv is None:
+                    res_attrs.append((None, [], lv, vv))
+                    continue
+                ns = lookup(pv, own)
+                if any(eq(sn, ns) and eq(sl, lv) for (sn, sl) in seen):
+                    continue
+                seen.append((ns, lv))
+                res_attrs.append((pv, ns, lv, vv))
+            pn, ln = val(name[0]), val(name[1])
+            ens = lookup(pn, own)
+            out.append((pn, ens, ln, res_attrs))
+            if kind == "StartTag":
+                open_.append((ens, ln, own))
+                started = True
+            elif not started:
+                ended = True
+        elif kind == "EndTag":
+            if not started:
+                continue
+            pn, ln = val(name[0]), val(name[1])
+            ns = lookup(pn, [])
+            for i in range(len(open_) - 1, -1, -1):
+                if eq(open_[i][0], ns) and eq(open_[i][1], ln):
+                    del open_[i:]
+                    break
+            if not open_:
+                ended = True
+        elif kind == "ShortTag":
+            if not started:
+                continue
+            open_.pop()
+            if not open_:
+                ended = True
+    return out
+
+
+def c16_dump(calls):
+    """created elements of a concrete run in the text form of the native `xmltree` replay"""
+    hx = lambda ch: bytes(ch).decode("latin1").encode("utf-8").hex()
+    def qn(q):
+        pre, qns, loc = q.f
+        return "%s:%s:%s" % (hx(pre.f[0].ch) if pre.variant == "Some" else "-", hx(qns.ch), hx(loc.ch))
+    return ["elem %s [%s]" % (qn(q), " ".join("%s=%s" % (qn(a.f[0]), hx(a.f[1].ch)) for a in attrs)) for (_, h, q, attrs) in calls]
+
+
+def c16_expected_text(shape, concrete):
+    """the oracle on concrete atoms, same text form"""
+    hx = lambda ch: bytes(ch).decode("latin1").encode("utf-8").hex()
+    val = lambda x: None if x is None else ([concrete[x]] if x.startswith("$") else [ord(c) for c in x])
+    exp = c16_oracle(None, shape, val)
+    qn = lambda p, n, l: "%s:%s:%s" % (hx(p) if p is not None else "-", hx(n), hx(l))
+    return ["elem %s [%s]" % (qn(pn, ns, ln), " ".join("%s=%s" % (qn(ap, an, al), hx(av)) for (ap, an, al, av) in at)) for (pn, ns, ln, at) in exp]
+
+
+def c16_native_text(exe, shape, concrete):
+    import subprocess
+    val = lambda x: "-" if x is None else ((chr(concrete[x]) if x.startswith("$") else x).encode().hex() or "")
+    lines = ["mode xmltree"]
+    for (kind, name, attrs) in shape:
+        l = "tag %s %s %s" % (kind, val(name[0]), val(name[1]))
+        for (p_, l_, v_) in attrs:
+            l += " %s %s %s" % (val(p_), val(l_), val(v_) if v_ else "")
+        lines.append(l)
+    p = subprocess.run([exe], input=("\n".join(lines) + "\n").encode(), stdout=subprocess.PIPE, stderr=subprocess.PIPE, timeout=30)
+    if p.returncode != 0:
+        return ["EXIT %d %s" % (p.returncode, p.stderr.decode(errors="replace")[-200:])], "\n".join(lines)
+    return p.stdout.decode().splitlines(), "\n".join(lines)
+
+
+def c16_compare(calls, exp):
+    if len(calls) != len(exp):
+        return "builder created %d elements, %d expected" % (len(calls), len(exp))
+    diffs = []
+    for (_, h, q, attrs), (pn, ns, ln, eattrs) in zip(calls, exp):
+        d = _qn_diff(q, pn, ns, ln)
+        if isinstance(d, str):
+            return d
+        diffs += d
+        if len(attrs) != len(eattrs):
+            return "element has %d attributes, %d expected" % (len(attrs), len(eattrs))
+        for a, (ap, ans, al, av) in zip(attrs, eattrs):
+            d = _qn_diff(a.f[0], ap, ans, al)
+            if isinstance(d, str):
+                return d
+            diffs += d
+            v = a.f[1].ch
+            if len(v) != len(av):
+                return "attribute value length"
+            e = MD.seq_eq(v, av)
+            if e is False:
+                return "attribute value differs"
+            if e is not True:
+                diffs.append(z3.Not(e))
+    diffs = [x for x in diffs if x is not False]
+    if not diffs:
+        return True
+    return z3.Or(diffs) if len(diffs) > 1 else diffs[0]
+
+
+def _qn_diff(q, pn, ns, ln):
+    pre, qns, loc = q.f
+    gp = pre.f[0].ch if pre.variant == "Some" else None
+    if (gp is None) != (pn is None):
+        return "prefix presence differs"
+    out = []
+    for got, want in ((gp, pn), (qns.ch, ns), (loc.ch, ln)):
+        if got is None:
+            continue
+        if len(got) != len(want):
+            return "name component length differs: got %r expected %r" % (tok.show_obs([tuple(got)]), tok.show_obs([tuple(want)]))
+        e = MD.seq_eq(list(got), list(want))
+        if e is False:
+            return "name component differs: got %r expected %r" % (tok.show_obs([tuple(got)]), tok.show_obs([tuple(want)]))
+        if e is not True:
+            out.append(z3.Not(e))
+    return out
